@@ -531,6 +531,7 @@ def model_checks(ctx):
     ctx.require_actions(res["Picked_cov.cfg"], ["Strip", "Map", "Guard", "Pair", "Best", "Conf"])
 
 def run(ctx):
+    ctx.liveness("Picked", unfair_control=not ctx.quick)      # termination under weak fairness (Picked_live.cfg)
     logging.disable(logging.CRITICAL)
     rng = np.random.default_rng(ctx.seed)
     # ---------------- (M) + (G): independent TLC runs, started together ----------------
